@@ -475,8 +475,10 @@ def run_check(mod, tier, seed):
     ev = dict(property_id=prop, tier=tier, seed=seed, level='exploration', coverage=cov,
               assumptions=list(getattr(mod, 'ASSUMPTIONS', [])), wall_s=round(wall, 2),
               violations=len(violations))
-    edir = HOME / 'evidence'
-    edir.mkdir(exist_ok=True)
+    # evidence is about /repo only: a run against a scratch tree (VF_REPO, sensitivity experiments) must not overwrite it
+    scratch = os.path.realpath(os.environ.get('VF_REPO', '/repo')) != os.path.realpath('/repo')
+    edir = HOME / ('evidence' if not scratch else 'replays/scratch-evidence')
+    edir.mkdir(parents=True, exist_ok=True)
     (edir / f'{prop}.json').write_text(json.dumps(ev, indent=1, ensure_ascii=False) + '\n')
     print(f'{prop} {tier} seed={seed}: evaluations={cov["evaluations"]} distinct_nontrivial={cov["distinct_nontrivial"]} '
           f'violations={len(violations)} known={len(known_lines)} excluded={sum(excluded.values())} '
